@@ -212,6 +212,7 @@ def run_unit(name, tier='quick', seed=0):
     r.bounded = []
     r.lost = []
     r.degraded = set()
+    r.anchor_fp = {}
     t0 = time.time()
     wd = os.path.join(WORK, name)
     os.makedirs(wd, exist_ok=True)
@@ -248,6 +249,7 @@ def run_unit(name, tier='quick', seed=0):
     r.functions = u.functions
     r.lost = list(u.lost_anchors)
     r.degraded = set(u.degraded_fns)
+    r.anchor_fp = {k: sorted(v) for k, v in u.anchor_fp.items() if v}
     r.log = u.log
     r.trusted = tb + ['N6 havoc: ' + h for h in u.havocs] + ['N7 ' + x for x in u.reduced] + list(u.trait_contracts)
     renames = sorted(set((l['before'], l['after']) for l in u.log if l['rule'] == 'N3'))
